@@ -156,6 +156,18 @@ func genControlFiles(r *core.Rand, controlText string) []tarEnt {
 		others[0].Data = []byte(sb.String())
 	}
 	others = others[:r.Range(0, 3)]
+	if r.Chance(1, 2) {
+		// near-miss names: only the top-level file named exactly "control" is the control file
+		decoy := []byte("Package: decoy\nVersion: 6.6.6\nArchitecture: all\nDescription: not the control file\n")
+		near := [][]tarEnt{
+			{{Name: "./conf.d/", Type: tar.TypeDir, Mode: 0o755}, {Name: "./conf.d/control", Type: tar.TypeReg, Data: decoy, Mode: 0o644}},
+			{{Name: "./control.bak", Type: tar.TypeReg, Data: decoy, Mode: 0o644}},
+			{{Name: "./xcontrol", Type: tar.TypeReg, Data: decoy, Mode: 0o644}},
+			{{Name: "./controls", Type: tar.TypeReg, Data: decoy, Mode: 0o644}},
+			{{Name: "./a/", Type: tar.TypeDir, Mode: 0o755}, {Name: "./a/b/", Type: tar.TypeDir, Mode: 0o755}, {Name: "./a/b/control", Type: tar.TypeReg, Data: decoy, Mode: 0o644}},
+		}
+		others = append(near[r.Intn(len(near))], others...)
+	}
 	pos := r.Range(0, len(others))
 	var out []tarEnt
 	if r.Bool() {
